@@ -15,7 +15,9 @@ func init() {
 			"after every restart: recovery must not run, lock file must be gone after Close, full read-back (Items/Count/Get/Has/GetAppend of all keys " +
 			"incl. absent ones) and structural index walk must equal the reference, the index geometry (level, split pointer, buckets, free list) " +
 			"must equal the one before Close; half of the restarts add an idle Open+Close whose segment files must stay byte-identical; " +
-			"on real directories restarts alternate fs.OS <-> fs.OSMMap. evaluations = API calls compared (restarts included); " +
+			"on real directories restarts alternate fs.OS <-> fs.OSMMap; half of the programs run with the library's own random hash seeds and " +
+			"half of the programs empty the database completely, restart and refill it; on CrashFS every file-system call made by a final Close is failed " +
+			"once (fault injection): whenever Close returns nil anyway the directory must reopen without recovery with the closed contents. evaluations = API calls compared (restarts included); " +
 			"distinct_nontrivial = distinct (restart position, index shape at restart) pairs; a restart with an empty index is counted trivial.",
 		Assumptions: []string{
 			"reference model: Go map carried across sessions",
@@ -28,15 +30,22 @@ func init() {
 			return 160
 		},
 		Run:     runC02,
-		Require: []string{"clean_restarts", "idle_cycles", "fs_switches", "restarts_with_chain", "restarts_with_free_list", "restarts_mid_level", "compactions_effective"},
+		Require: []string{"unpinned_seed_programs", "emptied_and_refilled", "faulty_closes", "clean_restarts", "idle_cycles", "fs_switches", "restarts_with_chain", "restarts_with_free_list", "restarts_mid_level", "compactions_effective"},
 	})
 }
 
 func runC02(c *core.Ctx) {
 	rng := c.Rng
 	seed := rng.Uint32()
-	core.PinSeed(seed)
-	ks := core.GenKeys(rng, seed, randKeySpec(c))
+	// odd cases run with the library's own random hash seeds (a new one whenever the database has been emptied and is
+	// opened again); the keys are engineered for the seed the first Open drew
+	unpinned := c.Case%2 == 1
+	if unpinned {
+		core.UnpinSeed()
+		c.Stat("unpinned_seed_programs", 1)
+	} else {
+		core.PinSeed(seed)
+	}
 	cfg := core.RandConfig(rng)
 	var fsk core.FSKind
 	switch c.Case % 4 {
@@ -49,8 +58,41 @@ func runC02(c *core.Ctx) {
 	default:
 		fsk = core.FSOSMMap
 	}
+	env := core.NewEnv(fsk)
+	defer func() { env.Cleanup() }()
+	x, err := core.NewExec(c, env, cfg, nil)
+	if err != nil {
+		c.Violation("open-error", fmt.Sprintf("first Open failed: %v", err), nil)
+		return
+	}
+	defer func() {
+		if x.DB != nil {
+			x.DB.Close()
+		}
+	}()
+	if unpinned {
+		seed = x.DB.VerifHashSeed()
+	}
+	ks := core.GenKeys(rng, seed, randKeySpec(c))
+	x.Keys = ks.Keys
 	nops := 150 + rng.Intn(1200)
 	ops := core.GenOps(rng, ks, core.ProgSpec{NOps: nops, CompactPct: 40, Reopen: true})
+	if rng.Intn(2) == 0 {
+		// empty the database completely, restart (a new hash seed is drawn for an empty index), refill
+		at := len(ops) / 3 * (1 + rng.Intn(2))
+		var emptied []core.Op
+		emptied = append(emptied, ops[:at]...)
+		for i := range ks.Keys {
+			emptied = append(emptied, core.Op{K: core.OpDelete, Key: i})
+		}
+		emptied = append(emptied, core.Op{K: core.OpReopen}, core.Op{K: core.OpVerify})
+		for _, i := range rng.Perm(len(ks.Keys)) {
+			emptied = append(emptied, core.Op{K: core.OpPut, Key: i, VLen: 8 + rng.Intn(30)})
+		}
+		emptied = append(emptied, core.Op{K: core.OpReopen})
+		ops = append(emptied, ops[at:]...)
+		c.Stat("emptied_and_refilled", 1)
+	}
 	// extra restarts: right at the start (empty database), after compactions, and at PRNG positions
 	var withRestarts []core.Op
 	if rng.Intn(3) == 0 {
@@ -64,18 +106,6 @@ func runC02(c *core.Ctx) {
 	}
 	withRestarts = append(withRestarts, core.Op{K: core.OpReopen})
 	ops = withRestarts
-	env := core.NewEnv(fsk)
-	defer func() { env.Cleanup() }()
-	x, err := core.NewExec(c, env, cfg, ks.Keys)
-	if err != nil {
-		c.Violation("open-error", fmt.Sprintf("first Open failed: %v", err), nil)
-		return
-	}
-	defer func() {
-		if x.DB != nil {
-			x.DB.Close()
-		}
-	}()
 	x.AltFS = true
 	x.IdleCycles = rng.Intn(2) == 0
 	c.Stat("fs_"+string(fsk), 1)
@@ -119,8 +149,72 @@ func runC02(c *core.Ctx) {
 			return
 		}
 	}
+	if fsk == core.FSCrash && c.Violations() == 0 {
+		c02FaultyClose(c, x, cfg, seed)
+	}
 	if c.Case < 2 {
 		c.Sample(map[string]interface{}{"hash_seed": seed, "fs": fsk, "config": cfg, "nkeys": len(ks.Keys),
 			"nops": len(ops), "first_ops": core.OpsToStrings(ops, 30)})
+	}
+}
+
+// c02FaultyClose: for every file-system call k made by Close, a copy of the database is opened, written to and
+// closed with call k failing. Whenever that Close returns nil anyway, the directory must reopen - without
+// recovery - with exactly the closed contents (the statement starts with "After Close returns nil").
+func c02FaultyClose(c *core.Ctx, x *core.Exec, cfg core.Config, seed uint32) {
+	base := x.Env.Crash.Snapshot() // while open: lock present, the copy starts with a recovery
+	want := x.Ref.Clone()
+	for k := 0; k < 400; k++ {
+		cenv := core.CrashEnvFromImage(base)
+		ffs := core.NewFaultFS(cenv.FS)
+		cenv.FS = ffs
+		db, err := cenv.Open(cfg)
+		if err != nil {
+			c.Violation("open-error", "opening a crash image of the final state failed: "+err.Error(), nil)
+			return
+		}
+		ref := want.Clone()
+		for i := 0; i < 5; i++ {
+			key := []byte(fmt.Sprintf("fault-%d", i))
+			val := core.MakeVal(k*8+i, 12)
+			if err := db.Put(key, val); err != nil {
+				c.Violation("put-error", err.Error(), nil)
+				return
+			}
+			ref[string(key)] = string(val)
+		}
+		ffs.Arm(k)
+		cerr := db.Close()
+		fired := ffs.Fired
+		ffs.Disarm()
+		c.Eval(1)
+		if fired == "" {
+			break // k is beyond the calls Close makes
+		}
+		c.Stat("faulty_closes", 1)
+		if cerr != nil {
+			c.Stat("faulty_closes_reported_error", 1)
+			continue
+		}
+		c.Stat("faulty_closes_returned_nil", 1)
+		rec0 := core.Recoveries()
+		db2, err := cenv.Open(cfg)
+		if err != nil {
+			c.Violation("close-nil-but-unopenable", fmt.Sprintf("Close returned nil although its file-system call #%d (%s) failed; the next Open fails: %v", k, fired, err),
+				map[string]interface{}{"hash_seed": seed, "config": cfg, "failed_call": fired})
+			return
+		}
+		st, derr := core.Dump(db2, x.Keys)
+		recovered := core.Recoveries() != rec0
+		db2.Close()
+		if derr != nil || !st.Equal(ref) {
+			c.Violation("close-nil-but-contents-lost", fmt.Sprintf("Close returned nil although its file-system call #%d (%s) failed; after reopening the contents differ: %v %s", k, fired, derr, st.Diff(ref, 3)),
+				map[string]interface{}{"hash_seed": seed, "config": cfg, "failed_call": fired})
+			return
+		}
+		if recovered {
+			c.Violation("reopen-recovered", fmt.Sprintf("Close returned nil (call #%d %s failed) but the next Open needed recovery", k, fired), nil)
+			return
+		}
 	}
 }
